@@ -360,7 +360,32 @@ def _replay(rec):
     return 0
 
 
+def deductive(ctx):
+    """engine D: frames of the eight pickling hooks (contracts/pickling.py) on every path of the real functions, and the
+    round-trip lemmas that follow from the frames plus cp.loads(cp.dumps(x)) == x (z3, theory of arrays)"""
+    import time as _t
+
+    import z3
+    from contracts import pickling as PK
+    from pyvc.verify import verify, summarize
+
+    for mk in PK.ALL:
+        summarize(ctx, verify(ctx, mk()))
+    for name, goal, premises in PK.roundtrip_lemmas():
+        s = z3.Solver()
+        s.set("timeout", 10000)
+        s.add(z3.Not(goal))
+        t0 = _t.time()
+        r = s.check()
+        status = "discharged" if r == z3.unsat else ("refuted" if r == z3.sat else "unknown")
+        ctx.add_obligation({"id": f"lemma.{name}", "function": "contracts/pickling.py:roundtrip_lemmas", "clause": f"lemma.{name}", "role": "property:C29", "status": status, "backend": "z3", "time_s": round(_t.time() - t0, 3), "goal": f"{premises} => round trip"})
+        if status != "discharged":
+            ctx.undecide(f"lemma.{name}", f"round-trip lemma not discharged ({status})")
+    ctx.trust("cp.loads(cp.dumps(x)) == x and cp.dumps(x) is a bytes object (cloudpickle; exercised by the bounded part in fresh interpreters)")
+
+
 def run(ctx):
+    deductive(ctx)
     with T.private_hash_cache():
         _run(ctx)
 
